@@ -87,6 +87,25 @@ def make_app_json():
     return Application([S], 'tns', name='App2', in_protocol=HttpRpc(), out_protocol=JsonDocument(complex_as=list))
 
 
+def make_app_xml():
+    """Third application: XmlDocument on both sides, echoing text - requests that differ in what the TRANSPORT says about them
+    (the charset parameter of the content type), which is a fact about one request, not about the protocol object."""
+    from spyne import Application, Service, srpc, Unicode
+    from spyne.protocol.xml import XmlDocument
+
+    class S(Service):
+        @srpc(Unicode, _returns=Unicode)
+        def echo(s): return s
+    return Application([S], 'tns', name='App3', in_protocol=XmlDocument(validator='soft'), out_protocol=XmlDocument())
+
+
+# name -> (content type, body bytes)
+XML_REQS = {
+    'lat': ('text/xml; charset=iso-8859-1', u'<tns:echo xmlns:tns="tns"><tns:s>caf\xe9 \xfcber</tns:s></tns:echo>'.encode('latin-1')),
+    'latdecl': ('text/xml; charset=iso-8859-1', u'<?xml version="1.0" encoding="iso-8859-1"?><tns:echo xmlns:tns="tns"><tns:s>caf\xe9</tns:s></tns:echo>'.encode('latin-1')),
+    'utf': ('text/xml', u'<tns:echo xmlns:tns="tns"><tns:s>caf\xe9 \xfcber \u017e</tns:s></tns:echo>'.encode('utf8')),
+    'utf16': ('text/xml; charset=utf-16', u'<tns:echo xmlns:tns="tns"><tns:s>caf\xe9</tns:s></tns:echo>'.encode('utf-16')),
+}
 JSON_REQS = {'pt': ('/pt', 'n=3'), 'pt2': ('/pt', 'n=4'), 'seg': ('/seg', 'n=5'), 'pts': ('/pts', 'n=6'),
              'tag1': ('/tag', 'v=one'), 'tag2': ('/tag', 'v=two')}
 
@@ -99,6 +118,11 @@ REQS = {
 
 
 def env_for(name):
+    if name in XML_REQS:
+        ct, body = XML_REQS[name]
+        return {'REQUEST_METHOD': 'POST', 'PATH_INFO': '/', 'QUERY_STRING': '', 'CONTENT_TYPE': ct,
+                'wsgi.input': io.BytesIO(body), 'wsgi.url_scheme': 'http', 'SERVER_NAME': 'x', 'SERVER_PORT': '80',
+                'CONTENT_LENGTH': str(len(body))}
     if name in JSON_REQS:
         path, qs = JSON_REQS[name]
         return {'REQUEST_METHOD': 'GET', 'PATH_INFO': path, 'QUERY_STRING': qs, 'wsgi.input': io.BytesIO(b''),
